@@ -3,6 +3,7 @@ from vpa import evaluators as E
 from vpa import term as T
 from vpa.core import show, Site, simplify, subterms
 from vpa.pattern import match, find
+from rules import chain_rules
 
 EXPLANATION = """Structural obligations behind C12: (TERM) every loop of the connectivity walks and flood fills has a structural
 variant (finite iterator, bounded counter, or a lexicographic (|R|,|W|) measure where R never grows and every growth of the
@@ -15,7 +16,7 @@ wound and outward on the {0,1}^3 lattice, and the generated cylinder quads are c
 pattern of their corner lattice."""
 NOT_DECIDED = "that patches are maximal connected components for arbitrary winding (value-level), polynomial time bounds, set-equality of results across hash seeds beyond the index-leak channel"
 ASSUMPTIONS = ["std collection semantics: pop/remove shrink by one on success, insert grows or overwrites",
-               "TERM for chained_indices is covered under C13"]
+               ]
 
 ED = 'geom3::mesh::edges'
 PA = 'geom3::mesh::patches'
@@ -241,6 +242,9 @@ def run(cx):
             if match('(agg tuple (0 (add _ _)) (1 _) (2 _))', d):
                 g = any(p and a[0] == 'call' and a[1] == 'HashSet::remove' for a, p in cx.guards(b, s.bb))
                 cx.ob('GUARD', 'clusters_from_sparse:queue-on-remove', g, 'a neighbour is queued exactly when indices.remove(neighbour) succeeded', where=s)
+
+    # ---------------------------------------------------------------- index chaining (exactly-once, maximal chains)
+    chain_rules.run(cx)
 
     # ---------------------------------------------------------------- TABLE box
     b = cx.fn('geom3::mesh::box_geom')
